@@ -138,11 +138,18 @@ def Agent.clone (a : Agent) : Agent :=
   let c := (Agent.mk0 a.sem a.lamb a.outNumel)
   { c with numel := a.numel, sigmaInv := a.sigmaInv, hist := a.hist }
 
-/-- `save_checkpoint` + `load`: the network is rebuilt from its `init_dict`, the hook runs, the
-    saved attributes (`numel`, `sigma_inv`, …) are restored -/
+/-- `target.load_checkpoint(path)` where `path` holds `saved` (also the core of the classmethod
+    `load`, whose `target` is a freshly constructed agent): the networks of `target` are replaced by
+    ones rebuilt from the saved `init_dict` (so the output layer has the saved size), the hook
+    `init_params` runs on them, then every saved plain attribute (`lamb`, `numel`, `sigma_inv`, …)
+    is restored -/
+def Agent.loadFrom (target saved : Agent) : Agent :=
+  let c := (target.setArch saved.outNumel).initParams
+  { c with lamb := saved.lamb, numel := saved.numel, sigmaInv := saved.sigmaInv, hist := saved.hist }
+
+/-- `save_checkpoint` + `load` (round trip through a fresh agent of the same class) -/
 def Agent.reload (a : Agent) : Agent :=
-  let c := (Agent.mk0 a.sem a.lamb a.outNumel)
-  { c with numel := a.numel, sigmaInv := a.sigmaInv, hist := a.hist }
+  (Agent.mk0 a.sem a.lamb a.outNumel).loadFrom a
 
 inductive Op where
   | update (g : Vec)
